@@ -33,8 +33,23 @@ def one_case(rng, res, check_c11=True):
         n = rng.randrange(1, 5)
         tamper = rng.choice(chainrun.TAMPERS)
         at = rng.randrange(1, n + 1)       # between step at-1 and step at; at = n: the final product
-        opts = chainrun.gen_opts(rng, allow_paths=set(chainrun.TAMPERS) <= {None, "rewrite", "excluded"})
-        h = chainrun.Honest(rng, root).carry_out(n, tamper, at, opts)
+        # material / product lists naming the top-level entries one by one (with a look-alike pair among them): in honest
+        # histories, and with tampers between two steps (the final inspection records the whole tree and, with such lists,
+        # has to allow what the steps did not record: a change of the final product alone would not be evident)
+        harmless_only = set(chainrun.TAMPERS) <= {None, "rewrite", "excluded"}
+        opts = chainrun.gen_opts(rng, allow_paths=harmless_only or tamper in HARMLESS or tamper in ("link_edit", "link_swap", "link_remove") or
+                                 (tamper in ("edit", "add", "delete", "rename") and at < n))
+        try:
+            h = chainrun.Honest(rng, root).carry_out(n, tamper, at, opts)
+        except (OSError, ValueError, KeyError, AttributeError, TypeError) as e:
+            if type(e).__module__.startswith("subprocess"):
+                raise
+            # the tools failed on an honest call (the history up to here was carried out with them)
+            res.evaluations += 1
+            res.fail("oracle", {"op": "honest_run", "desc": {"steps": n, "tamper": tamper, "at": at, "options": {
+                "exclude": opts["exclude"][0] if opts["exclude"] else None, "lstrip": opts["lstrip"], "base_path": opts["base"], "paths": opts.get("paths")}}},
+                     {"why": "running / recording a step of an honest history failed: %s: %s" % (type(e).__name__, str(e)[:160])})
+            return
         desc = {"steps": n, "tamper": tamper if h.tamper_applied else None, "at": at,
                 "options": {"exclude": opts["exclude"][0] if opts["exclude"] else None, "lstrip": opts["lstrip"], "base_path": opts["base"],
                             "paths": opts.get("paths")},
